@@ -2,7 +2,7 @@
 # usage: tools/try_mutant.sh <patch.diff> <Cxx> [Cyy ...]
 # applies the patch to /repo's working tree, runs the given quick checks, restores the tree.
 set -u
-P="$1"; shift
+P="$(realpath "$1")"; shift
 cd /verif
 git -C /repo diff --quiet || { echo "REFUSING: /repo working tree is dirty"; exit 3; }
 git -C /repo apply "$P" || { echo "patch does not apply"; exit 3; }
